@@ -619,3 +619,4 @@ def stmts_of_block(node):
 
 # added rules (appended to the explanation the evidence file carries)
 EXPLANATION += (" " + 'Added during the build (DESIGN.md 4.31, second table): SimpleComparison.target by abstract execution on 48 placeholder cases; the rounding rule R02.2 of C02 is shared (decimal constants in comparisons).')
+EXPLANATION += (" Added after wave 9: the memo rule for Constant and the load-width rule of C01 are shared (a scaled constant compared as a stale 32-bit immediate; a narrower signed memory operand not extended to the comparison's 64 bits).")
